@@ -51,7 +51,23 @@ def cases(tier, rng):
             for cur in range(0, total + 1):
                 buf = ''.join('%02x' % rng.randrange(256) for _ in range(total))
                 out.append('bytes %d %s %d' % (ln, buf or '-', cur))
-    return out
+    # the same parsers on a restricted view: the window is `buf`, with other bytes before and after it in
+    # the underlying storage (tokens 5 and 6); every truncation again, so that reading past the window shows
+    more = []
+    for k, w in W.items():
+        for e in ('be', 'le'):
+            for rem in range(0, w + 1):
+                for cur in range(0, 3):
+                    buf = ''.join('%02x' % rng.randrange(256) for _ in range(cur + rem))
+                    pre = ''.join('%02x' % rng.randrange(256) for _ in range(rng.randrange(0, 4)))
+                    post = ''.join('%02x' % rng.randrange(256) for _ in range(rng.choice([0, 1, w, 2 * w])))
+                    more.append('%s %s %s %d %s %s' % (k, e, buf or '-', cur, pre or '-', post or '-'))
+    for ln in range(0, 8):
+        for total in range(0, 8):
+            for cur in range(0, total + 1):
+                buf = ''.join('%02x' % rng.randrange(256) for _ in range(total))
+                more.append('bytes %d %s %d %s %s' % (ln, buf or '-', cur, 'aabb', 'ccddeeff0011'))
+    return out + more
 
 
 def _unhex(s):
